@@ -42,7 +42,7 @@ impl Rng {
 }
 
 // ------------------------------------------------------------------ hook: role-directed stalls
-/// Address-reuse allocator (`--reuse-alloc`, native lane only): blocks of 256..8192 bytes are recycled LIFO through
+/// Address-reuse allocator (`--reuse-alloc`, native lane only): blocks of 32..8192 bytes are recycled LIFO through
 /// one process-wide free list per exact (size, align), so that a queue block that was just freed by one thread is the
 /// next one allocated by another. ABA windows (a packed `(block pointer, index)` word that compares equal after the
 /// block went away and came back) need exactly that and hardly ever get it from glibc's per-thread caches. Off by
@@ -57,7 +57,7 @@ mod reuse {
     static mut HEADS: [*mut u8; BUCKETS] = [std::ptr::null_mut(); BUCKETS];
     pub struct Reuse;
     fn bucket(l: &Layout) -> Option<usize> {
-        if l.size() >= 256 && l.size() < 8192 && l.size() % 8 == 0 && l.align() <= 64 {
+        if l.size() >= 32 && l.size() < 8192 && l.size() % 8 == 0 && l.align() <= 64 {
             Some(l.size() / 8)
         } else {
             None
